@@ -62,7 +62,8 @@ def rule_delegation(col, facts):
                               ("parse_partial_with_options", "lexical_core::FromLexicalWithOptions::from_lexical_partial_with_options", 2)]:
         f = facts.fn("lexical::" + nm)
         calls = forwarding_calls(f)
-        ok = len(calls) == 2 and calls[0][0] == "core::convert::AsRef::as_ref" and is_param(calls[0][2][0], 1) and calls[1][0] == target
+        # (directly, or through the lexical_core free function of the same name, which the table above ties to it)
+        ok = len(calls) == 2 and calls[0][0] == "core::convert::AsRef::as_ref" and is_param(calls[0][2][0], 1) and calls[1][0] in (target, "lexical_core::" + nm)
         if ok:
             a0 = strip_casts(calls[1][2][0])
             inner = [c for c in expr_calls(a0) if c[1] == "core::convert::AsRef::as_ref"]
@@ -100,9 +101,27 @@ def rule_to_string(col, facts):
          lambda e: e[0] == "call" and e[1].endswith("WriteOptions::buffer_size"))):
         f = facts.fn("lexical::" + nm)
         calls = forwarding_calls(f)
+        # the trait method the lexical_core free function forwards to (DLG) is the same writer
+        trait_writer = {"lexical_core::write": "lexical_core::ToLexical::to_lexical", "lexical_core::write_with_options": "lexical_core::ToLexicalWithOptions::to_lexical_with_options"}[writer]
+        if not any(c[0] == writer for c in calls) and any(c[0] == trait_writer for c in calls):
+            writer = trait_writer
+        # a private helper of the facade that only shortens the vector to the length it is handed and converts it:
+        # its calls are read in place of the call to it
+        helper_tail = None
+        for c in list(calls):
+            hs = [h for h in facts.by_short.get(c[0], []) if h.crate == "lexical" and h.kind != "Closure"]
+            if len(hs) == 1:
+                hc = forwarding_calls(hs[0])
+                hn = [x[0] for x in hc]
+                if set(hn) <= {"alloc::vec::Vec::truncate", "alloc::vec::Vec::set_len", "alloc::string::String::from_utf8_unchecked"} and "alloc::string::String::from_utf8_unchecked" in hn:
+                    cut = [x for x in hc if x[0] in ("alloc::vec::Vec::truncate", "alloc::vec::Vec::set_len")]
+                    if len(cut) == 1 and is_param(cut[0][2][1], 2) and len(c[2]) == 2:
+                        helper_tail = strip_casts(c[2][1])            # the length the caller hands in
+                        calls = [x for x in calls if x is not c]
         names = [c[0] for c in calls]
         allowed = {"alloc::vec::from_elem", "alloc::vec::Vec::as_mut_slice", writer, "core::slice::len", "alloc::vec::Vec::set_len",
-                   "alloc::string::String::from_utf8_unchecked", "lexical_util::options::WriteOptions::buffer_size"}
+                   "alloc::string::String::from_utf8_unchecked", "lexical_util::options::WriteOptions::buffer_size",
+                   "core::ops::deref::DerefMut::deref_mut"}
         col.check(R, nm + ":calls", set(names) <= allowed and names.count(writer) == 1,
                   "unexpected calls %s (anything else could touch the bytes between write and the String)" % sorted(set(names) - allowed), f.loc())
         by = {c[0]: c for c in calls}
@@ -112,7 +131,14 @@ def rule_to_string(col, facts):
                       "buffer is `vec![%s; %s]`, expected the documented size" % (show(a[0]), show(a[1])), f.loc())
         else:
             col.bad(R, nm + ":buffer-size", "no vec![0; size] allocation", f.loc())
-        if "alloc::vec::Vec::set_len" in by and writer in by:
+        if helper_tail is not None and writer in by:
+            a = helper_tail
+            ok = a[0] == "call" and a[1] == "core::slice::len" and any(c[1] == writer for c in expr_calls(a))
+            col.check(R, nm + ":set_len", ok, "the vector is cut to `%s`: expected `.len()` of the slice returned by %s" % (show(a), last_seg(writer)), f.loc())
+            w = by[writer]
+            col.check(R, nm + ":writes-own-buffer", is_param(w[2][0], 1) and any(c[1] in ("alloc::vec::Vec::as_mut_slice", "core::ops::deref::DerefMut::deref_mut") for c in expr_calls(w[2][1])),
+                      "%s is not called on (n, the buffer)" % last_seg(writer), f.loc())
+        elif "alloc::vec::Vec::set_len" in by and writer in by:
             a = strip_casts(by["alloc::vec::Vec::set_len"][2][1])
             ok = a[0] == "call" and a[1] == "core::slice::len" and any(c[1] == writer for c in expr_calls(a))
             col.check(R, nm + ":set_len", ok, "set_len(%s): expected `.len()` of the slice returned by %s" % (show(a), last_seg(writer)), f.loc())
